@@ -33,6 +33,51 @@ try:
                             out.update(reproduced=True, inputs={'x0': x0.tolist(), 'g': g.tolist(), 'Delta': Delta}, observed=bad)
                             raise StopIteration
     fn = name.split('/')[0]
+    if fn == 'Controller.trust_region_step' and 'predicted reduction' in name:
+        # the regularised step handed to the main loop: wrap the REAL method during regularised solves and recompute h(x) - m(d) independently
+        import dfols
+        from dfols import controller as C
+        from dfols.util import model_value, remove_scaling
+        out = {'replayable': True, 'reproduced': False, 'tried': 0}
+        real = C.Controller.trust_region_step
+        bad = []
+
+        def wrapped(self, params, *a, **k):
+            r = real(self, params, *a, **k)
+            if self.h is not None and not bad:
+                d, gopt, H = r[0], r[1], r[2]
+                xa = self.model.xopt(abs_coordinates=True)
+                hx = self.h(remove_scaling(xa, self.scaling_changes), *self.argsh)
+                pred = hx - model_value(gopt, H, d, xa, self.h, self.argsh, self.scaling_changes)
+                out['tried'] += 1
+                if pred < -1e-13 * (1 + abs(hx)):
+                    bad.append((float(pred), d.tolist(), xa.tolist()))
+            return r
+        C.Controller.trust_region_step = wrapped
+        try:
+            rng = np.random.default_rng(0)
+            for trial in range(45):
+                n = int(rng.integers(2, 5)); m = n + int(rng.integers(0, 3))
+                A = rng.normal(size=(m, n)); b = rng.normal(size=m) * 3; lam = float(rng.choice([0.05, 0.5, 3.0, 10.0]))
+                kw = {}
+                if trial % 3 == 1:
+                    kw['bounds'] = (-np.ones(n) * 2, np.ones(n) * 2)
+                if trial % 3 == 2:
+                    from dfols.util import pball
+                    kw['projections'] = [lambda x, n=n: pball(x, np.zeros(n), 1.5), lambda x: np.minimum(x, 1.0)]
+                try:
+                    dfols.solve(lambda x: A @ x - b, rng.normal(size=n) * 0.5, h=lambda x: lam * float(np.sum(np.abs(x))), lh=lam * np.sqrt(n),
+                                prox_uh=lambda x, u: np.sign(x) * np.maximum(np.abs(x) - u * lam, 0), maxfun=120, **kw)
+                except Exception:
+                    pass
+                if bad:
+                    out.update(reproduced=True, inputs={'problem': 'lasso', 'n': n, 'm': m, 'lambda': lam, 'bounds': 'bounds' in kw, 'projections': 'projections' in kw, 'trial': trial, 'rng_seed': 0, 'step': bad[0][1], 'xopt': bad[0][2]},
+                               observed='a regularised step with predicted reduction h(x) - m(d) = %.3g < 0 was handed to the main loop' % bad[0][0])
+                    break
+        finally:
+            C.Controller.trust_region_step = real
+        print(json.dumps(out))
+        sys.exit(0)
     if fn == 'trsbox_geometry':
         from dfols import trust_region as TR
         out = {'replayable': True, 'reproduced': False, 'tried': 0}
